@@ -3,7 +3,7 @@
     nothing panics.  Statements only.  G/O: any group satisfying [group_laws] whose encoding has the SEC1
     lengths ([enc_len]); hmac512 / sha256 / ripemd160: ANY functions; paths of ANY length.  Each statement
     carries only the hypotheses its proof uses. *)
-From SL Require Import Lib.Base Lib.Oracle Lib.ZqGroup Model.Bip32 Model.Bip32Spec Proofs.Bip32 Proofs.Bip32Base58 Proofs.Bip32NonVac.
+From SL Require Import Lib.Base Lib.Oracle Lib.ZqGroup Model.Bip32 Model.Bip32Spec Proofs.Bip32 Proofs.Bip32Split Proofs.Bip32Base58 Proofs.Bip32NonVac.
 Local Open Scope N_scope.
 
 (** Every field and both strings equal the specification. For a non-hardened path of at most 255 levels from a non-identity
@@ -201,6 +201,37 @@ Theorem base58_decode_encode : forall bs, bytes_ok bs = true -> base58_decode (b
 Proof. exact base58_decode_encode_lem. Qed.
 Check base58_decode_encode : forall bs, bytes_ok bs = true -> base58_decode (base58_encode bs) = Some bs.
 Print Assumptions base58_decode_encode.
+
+(** Derivation composes along the path (session 3): for every split p1 ++ p2 with p2 non-empty, deriving the whole path from
+    the root returns what deriving p2 from the extended key reached by p1 returns -- same key, chain code, parent
+    fingerprint, child number, same error -- with the depth byte counted from the root ([rebase]).  Every group, every
+    oracle, no condition on the indices: a hardened or failing component in p2 gives the same error either way. *)
+Theorem derive_xpub_splits : forall G (O : group_ops G) (hmac512 : list N -> list N -> list N) (sha256 ripemd160 : list N -> list N) q,
+  group_laws q O -> enc_len O -> forall pfx root cc p1 p2 x1, p2 <> [] -> (length (p1 ++ p2) <= 255)%nat ->
+  derive_xpub G O hmac512 sha256 ripemd160 q pfx root cc p1 = Val x1 ->
+  derive_xpub G O hmac512 sha256 ripemd160 q pfx root cc (p1 ++ p2) =
+  rebase G pfx (length (p1 ++ p2)) (derive_xpub G O hmac512 sha256 ripemd160 q pfx (x_pubkey G x1) (x_chain_code G x1) p2).
+Proof. exact derive_xpub_split_lem. Qed.
+Check derive_xpub_splits : forall G (O : group_ops G) (hmac512 : list N -> list N -> list N) (sha256 ripemd160 : list N -> list N) q,
+  group_laws q O -> enc_len O -> forall pfx root cc p1 p2 x1, p2 <> [] -> (length (p1 ++ p2) <= 255)%nat ->
+  derive_xpub G O hmac512 sha256 ripemd160 q pfx root cc p1 = Val x1 ->
+  derive_xpub G O hmac512 sha256 ripemd160 q pfx root cc (p1 ++ p2) =
+  rebase G pfx (length (p1 ++ p2)) (derive_xpub G O hmac512 sha256 ripemd160 q pfx (x_pubkey G x1) (x_chain_code G x1) p2).
+Print Assumptions derive_xpub_splits.
+
+(** non-vacuity of the split: the 3-level example path split after its first level, both sides evaluated *)
+Theorem derive_xpub_splits_nonvacuous :
+  exists x1 x, derive_xpub _ (zq33 11 bip32_lt_1_11) ex_hmac ex_sha ex_rip 11 XPub ex_root ex_cc [0] = Val x1 /\
+    derive_xpub _ (zq33 11 bip32_lt_1_11) ex_hmac ex_sha ex_rip 11 XPub ex_root ex_cc ([0] ++ [2147483647; 5]) = Val x /\
+    rebase _ XPub 3 (derive_xpub _ (zq33 11 bip32_lt_1_11) ex_hmac ex_sha ex_rip 11 XPub (x_pubkey _ x1) (x_chain_code _ x1) [2147483647; 5]) = Val x /\
+    x_depth _ x = 3.
+Proof. exact split_example. Qed.
+Check derive_xpub_splits_nonvacuous :
+  exists x1 x, derive_xpub _ (zq33 11 bip32_lt_1_11) ex_hmac ex_sha ex_rip 11 XPub ex_root ex_cc [0] = Val x1 /\
+    derive_xpub _ (zq33 11 bip32_lt_1_11) ex_hmac ex_sha ex_rip 11 XPub ex_root ex_cc ([0] ++ [2147483647; 5]) = Val x /\
+    rebase _ XPub 3 (derive_xpub _ (zq33 11 bip32_lt_1_11) ex_hmac ex_sha ex_rip 11 XPub (x_pubkey _ x1) (x_chain_code _ x1) [2147483647; 5]) = Val x /\
+    x_depth _ x = 3.
+Print Assumptions derive_xpub_splits_nonvacuous.
 
 (** Non-vacuity: Z_11 with a SEC1-shaped encoding satisfies the hypotheses, and a 3-level derivation succeeds in it. *)
 Example bip32_hyps_satisfiable :
